@@ -225,6 +225,12 @@ let dispatch (fn : string) (args : sx list) : sx =
      | Parsed items -> L [A "parsed"; of_list of_item items]
      | ParseError (fp, e) -> L [A "parseerror"; of_fp fp; of_perr e]
      | NeedOracle q -> of_query q)
+  | "parse_repl", [tabs; s] ->
+    let o = oracles_of_tables (to_tables tabs) in
+    (match Xdmodel_core.parse_repl o (to_str s) with
+     | Parsed items -> L [A "parsed"; of_list of_item items]
+     | ParseError (fp, e) -> L [A "parseerror"; of_fp fp; of_perr e]
+     | NeedOracle q -> of_query q)
   (* Text / Directive / RunLoop *)
   | "dedent", [s] -> of_str (dedent (to_str s))
   | "codeblock", [s] -> of_str (codeblock (to_str s))
